@@ -17,8 +17,11 @@ Strip(rs) == [k \in 1..Len(rs) |-> [kind |-> rs[k].kind, idx |-> rs[k].idx]]
 Msgs(rs) == SelectSeq(Strip(rs), LAMBDA r : r.kind = "msg")
 Ended(rs) == Len(rs) > 0 /\ rs[Len(rs)].kind \in {"eof", "err"}
 Cons(rs)  == [k \in 1..Len(rs) |-> rs[k].consumed]
+\* path "conn+timeout" (Server.ReadTimeout, the peer stalls after stallat bytes for longer than
+\* the timeout, then sends the rest): exactly the messages wholly received before the stall are
+\* delivered - the expectation for the stream cut at stallat - and the connection is closed
 Reasons(e) ==
-  LET x == Expected(e.lens, e.total, 20) IN
+  LET x == Expected(e.lens, IF e.path = "conn+timeout" THEN e.stallat ELSE e.total, 20) IN
     (IF (e.exact /\ Strip(e.results) # Strip(x)) \/ (~e.exact /\ (Msgs(e.results) # Msgs(x) \/ ~Ended(e.results)))
      THEN <<"results">> ELSE <<>>)
  \o (IF e.exact /\ Strip(e.results) = Strip(x) /\ Cons(e.results) # Cons(x) THEN <<"consumed">> ELSE <<>>)
